@@ -97,7 +97,7 @@ func init() {
 func TestC12Close(t *testing.T) {
 	rec := evid.New(t, "C12", "generated node configurations (custom, TCP/UDP server with peers, TCP/UDP client against a live or refusing address, serial through the hook) with traffic, gated (blocked) transports, a consumer that is absent, running or paused, concurrent Write* callers and a generated close point (immediately, after a delay, once a writer is parked in the transport); Close must return within a bound far above normal (on a miss two goroutine dumps prove the deadlock), afterwards no goroutine started by the library is alive, every listening port can be bound again, accepted connections are closed, each custom transport was closed exactly once, Events() is closed, and racing/following Write* calls return; non-trivial = close while a goroutine is known to be blocked (parked writer, paused/absent consumer with pending events, client in back-off); distinct by hash of the scenario")
 	rec.Require("blocked-writer", "no-consumer", "paused-consumer", "client-backoff", "racing-writers", "tcps", "udps", "tcpc", "udpc", "serial", "custom")
-	evid.Check(t, rec, evid.N(120, 500), func(t *rapid.T) {
+	evid.Check(t, rec, evid.N(250, 700), func(t *rapid.T) {
 		w := &c12World{}
 		ne := rapid.IntRange(1, 4).Draw(t, "neps")
 		for i := 0; i < ne; i++ {
@@ -469,7 +469,7 @@ func runC12(w *c12World) ([]string, error) {
 func TestC12InitFailure(t *testing.T) {
 	rec := evid.New(t, "C12", "endpoint lists whose j-th element cannot be initialized (TCP/UDP port already bound, malformed address, serial device that does not open) after 0..3 good endpoints: Initialize must fail, no library goroutine may remain, every port of the earlier endpoints must be bindable again, earlier custom transports closed at most once; non-trivial = at least one good endpoint before the failing one; distinct by hash of the endpoint list")
 	rec.Require("fail-after-good", "busy-tcp", "busy-udp", "bad-address", "serial-missing")
-	evid.Check(t, rec, evid.N(150, 800), func(t *rapid.T) {
+	evid.Check(t, rec, evid.N(300, 1000), func(t *rapid.T) {
 		ngood := rapid.IntRange(0, 3).Draw(t, "ngood")
 		var endpoints []gomavlib.EndpointConf
 		var ports []int
